@@ -4,6 +4,7 @@ import (
 	"sort"
 	"fmt"
 	"go/ast"
+	"go/token"
 	"go/types"
 	"strings"
 
@@ -18,6 +19,7 @@ type SpecFnDef struct {
 	Params  []Term
 	Result  Sort
 	Body    string
+	SafeBody string // simple scalar helpers: "no run-time panic inside" as a term over the parameters ("" = nothing can panic)
 	Rec     bool
 	Deps    []string
 	Err     string
@@ -310,9 +312,27 @@ func (fc *FnCtx) pureBody(def *SpecFnDef) (string, error) {
 		fmt.Fprintf(&sb, "(let ((%s %s)) ", nm, term)
 		n++
 	}
+	if len(fc.pureSafety) > 0 {
+		def.SafeBody = sb.String() + And(fc.pureSafety...).S + strings.Repeat(")", n)
+	}
 	sb.WriteString(res.S)
 	sb.WriteString(strings.Repeat(")", n))
 	return sb.String(), nil
+}
+
+// helperSafety: a helper translated as a term (simpleScalarFn) is not verified on its own; what
+// could panic inside it (division by zero, ...) is an obligation here, in the caller's context.
+func (fc *FnCtx) helperSafety(callee *ssa.Function, args []Value, pos token.Pos) {
+	def := fc.eng.specFnDef(callee, fc.mode)
+	if def.Err != "" || def.SafeBody == "" || def.Rec {
+		return
+	}
+	ts, err := fc.specArgs(def, fc.cur, args)
+	if err != nil {
+		return
+	}
+	fc.useSpec(def.Name)
+	fc.oblige("div0", "inside "+relName(callee)+": no division by zero or other run-time panic for these arguments", pos, mk(SBool, smtName(def.Name+"!safe"), ts...))
 }
 
 // sexprEnd returns the index just after the first s-expression in s.
@@ -389,6 +409,9 @@ func (e *Engine) specDefsText(used map[string]bool, opaque map[string]bool) stri
 			kw = "define-fun-rec"
 		}
 		fmt.Fprintf(&sb, "(%s %s (%s) %s %s)\n", kw, smtName(n), strings.Join(ps, " "), d.Result, d.Body)
+		if d.SafeBody != "" && !d.Rec {
+			fmt.Fprintf(&sb, "(define-fun %s (%s) Bool %s)\n", smtName(n+"!safe"), strings.Join(ps, " "), d.SafeBody)
+		}
 	}
 	return sb.String()
 }
